@@ -137,7 +137,7 @@ int main(int argc, char **argv) {
       // Forcing the raw scheme is the caller's explicit choice; its table is O(max value),
       // so it is only forced for values that fit its documented 18(+)-bit domain.
       if (m == 0) { method = SYMBOL_CODING_TAGGED; }
-      else if (m == 1 && maxv < (1u << 20)) { method = SYMBOL_CODING_RAW; }
+      else if (m == 1 && maxv < (1u << 23)) { method = SYMBOL_CODING_RAW; }  // tables of up to 2^23 entries (~100 MB transient)
       if (method >= 0) SetSymbolEncodingMethod(&opt, static_cast<SymbolCodingMethod>(method));
     }
     char desc[256];
